@@ -45,6 +45,8 @@ pub(crate) mod verif_state {
         let mut ever = [false; K];
         let mut fresh = [true; K];
         let mut got_some_after_close = false;
+        let mut dead = [false; K]; // slot's future was dropped and not re-created yet
+        let mut dsn = [[0u32; 2]; K]; // wake counts of its two wakers just before the drop
         let mut bits = 0u32;
         let mut step = 0;
         while step < n && !s.exhausted() {
@@ -65,6 +67,7 @@ pub(crate) mod verif_state {
                     ids[i] = id;
                     *f = ManuallyDrop::new(ch.receive(StateId(id)));
                     alive[i] = true;
+                    dead[i] = false;
                     fresh[i] = true;
                     oracle!(p, P17, !f.is_terminated(), "C17 state broadcast: fresh receive future reports terminated");
                 }
@@ -106,6 +109,8 @@ pub(crate) mod verif_state {
                 let i = (op - 6) as usize;
                 s.assume(alive[i] && (pending[i] || done[i]));
                 let f = match i { 0 => &mut f0, 1 => &mut f1, _ => &mut f2 };
+                dsn[i] = match i { 0 => [c0a.n(), c0b.n()], 1 => [c1a.n(), c1b.n()], _ => [c2a.n(), c2b.n()] };
+                dead[i] = true;
                 unsafe { ManuallyDrop::drop(f) };
                 alive[i] = false;
                 pending[i] = false;
@@ -156,6 +161,12 @@ pub(crate) mod verif_state {
                         "C13 state broadcast: a waiting receiver was not woken by the send/close through its latest waker");
                 }
                 i += 1;
+            }
+            if (p & P01) != 0 {
+                // C01: a dropped future is in no wait queue any more, so its task is never woken again
+                if dead[0] { assert!(c0a.n() == dsn[0][0] && c0b.n() == dsn[0][1], "C01 state broadcast: the task of a dropped future was woken (dangling waiter)"); }
+                if dead[1] { assert!(c1a.n() == dsn[1][0] && c1b.n() == dsn[1][1], "C01 state broadcast: the task of a dropped future was woken (dangling waiter)"); }
+                if dead[2] { assert!(c2a.n() == dsn[2][0] && c2b.n() == dsn[2][1], "C01 state broadcast: the task of a dropped future was woken (dangling waiter)"); }
             }
             if (p & P17) != 0 {
                 if alive[0] { assert!(f0.is_terminated() == done[0], "C17 state broadcast: is_terminated() differs from 'completed'"); }
